@@ -821,6 +821,24 @@ def direct(rng, tier, focus=()):
     failures.extend(annexf_failures())
     # smallest first so that the replay written is the most readable one
     failures.sort(key=lambda f: len(f.get('octets', '')) + len(f.get('value', '')))
+    # "matches the standard": the element tables of the service PDUs and the base types they use, and the
+    # service choice numbers, against an independent transcription of clause 21 (harness/std_asn1.py)
+    import std_asn1
+    from bacpypes import apdu as _apdu, basetypes as _bt
+
+    def _find(nm):
+        return getattr(_apdu, nm, None) or getattr(_bt, nm, None)
+    for d in std_asn1.compare(_find):
+        n += 1
+        failures.append(dict(d, kind='schema-differs-from-standard'))
+    for table, reg in ((std_asn1.CONFIRMED_CHOICE, 'confirmed'), (std_asn1.UNCONFIRMED_CHOICE, 'unconfirmed')):
+        for nm, num in table.items():
+            n += 1
+            k = _find(nm)
+            if k is None or getattr(k, 'serviceChoice', None) != num:
+                failures.append({'kind': 'service-choice-differs-from-standard', 'production': nm, 'registry': reg,
+                                 'implementation': getattr(k, 'serviceChoice', None), 'standard': num})
+    n += len(std_asn1.SEQUENCES) + len(std_asn1.CHOICES)
     return failures, {'evaluations': n, 'distinct_nontrivial': len(nontriv), 'types_exercised': len(per_type),
                       'min_values_per_type': min(per_type.values()) if per_type else 0, 'samples': samples}
 
